@@ -342,6 +342,15 @@ func (c *fnCtx) evalLoopTerm(e *Expr, li *loopInfo, env *loopEnv) (res string) {
 func (c *fnCtx) localLookup(cur ssa.Instruction) func(name string) (tv, bool) {
 	f := c.f
 	return func(name string) (tv, bool) {
+		// entry_<param>: the value the parameter had on entry (parameters are mutable; the plain name denotes the
+		// current value at the anchor)
+		if strings.HasPrefix(name, "entry_") {
+			for i, p := range f.Params {
+				if p.Name() == name[len("entry_"):] && i < len(c.params) {
+					return tv{v: c.params[i], t: p.Type()}, true
+				}
+			}
+		}
 		blk := cur.Block()
 		first := true
 		for b := blk; b != nil; b = b.Idom() {
